@@ -96,6 +96,16 @@ def prepare(pid, tier, seed, quiet=False):
         import gen
         gen.generate(ctx)
         ctx.timings["gen_s"] = round(time.time() - t0, 2)
+        # fail fast: the harness crate must compile (natively: this is also the replay binary)
+        t0 = time.time()
+        rc, out = sh(["cargo", "build", "--offline", "--bin", "replay", "--target-dir", os.path.join(runner.BUILD, "replay-target")], cwd=runner.HARNESS_DIR)
+        if rc != 0:
+            import re as _re
+            errs = _re.findall(r"^error.*(?:\n.*){0,12}", out, _re.M)
+            print("\n".join(errs[:4]) or out[-3000:])
+            print("INCONCLUSIVE: the harness crate does not compile against /repo's current source")
+            sys.exit(2)
+        ctx.timings["harness_native_build_s"] = round(time.time() - t0, 2)
     finally:
         fcntl.flock(lock, fcntl.LOCK_UN)
     return ctx
